@@ -258,6 +258,7 @@ Lemma clV_facts :
   v_mem_start (clV E) = cl_p0 E /\ v_mem_end (clV E) = cl_p0 E + e_mem_len E /\
   v_mbuf_start (clV E) = e_mbuff_base E /\ v_mbuf_end (clV E) = e_mbuff_base E + e_mbuff_len E.
 Proof.
+  clear Hno_ranges Hmem_nonnull Hmbuff_nonnull.
   destruct HE as [(M1 & M2 & M3) (P1 & P2 & P3) (S1 & S2 & S3) _ _].
   assert (Q : 0 <= cl_p0 E /\ cl_p0 E + e_mem_len E <= 2 ^ 63).
   { unfold cl_p0. destruct (Z.eqb_spec (e_mem_len E) 0) as [Z0|_]; [rewrite Z0; change (2 ^ 63) with 9223372036854775808; lia|lia]. }
@@ -379,6 +380,46 @@ Proof.
       { unfold isa_kind in *. destruct (is_xadd (opc i)); [discriminate|]. destruct ((opc i mod 8 =? 0) || (opc i mod 8 =? 1)); [discriminate|reflexivity]. }
       rewrite K1. intros [= <-]. reflexivity.
 Qed.
+
+(** C11 as a property of the compiled step: a memory instruction whose compiled code completes (does not trap) made its
+    access -- [a_bytes] bytes at (a_base + a_off) mod 2^64, the ISA's address by cl_mem_arms -- entirely inside the stack, the
+    packet (when there is one) or the metadata buffer (when there is one), without wrapping; otherwise it trapped before
+    touching memory *)
+Theorem cl_exec_mem_safe i reg next fidx stacks m :
+  wf_insn i -> ArmBase.regs_ok reg -> In (opc i) cl_mem_ops ->
+  let a := gen_cl_mem (opc i) i (rd reg (dst i)) (rd reg (src i)) (cl_p0 E) in
+  (exists st, cl_exec E i reg next fidx stacks m = Ok st /\ access_allowed (clV E) ((a_base a + a_off a) mod 2 ^ 64) (a_bytes a))
+  \/ (cl_exec E i reg next fidx stacks m = Err ETrap /\ ~ access_allowed (clV E) ((a_base a + a_off a) mod 2 ^ 64) (a_bytes a)).
+Proof.
+  clear Hno_ranges Hmem_nonnull Hmbuff_nonnull.
+  intros (_ & _ & _ & Hoff & Hi) Hr Hin. cbv zeta.
+  pose proof (proj1 (forallb_forall _ _) mem_ops_class _ Hin) as C.
+  apply andb_true_iff in C as [C Cx]. apply andb_true_iff in C as [C Nl]. apply andb_true_iff in C as [C0 C3].
+  apply Z.leb_le in C0, C3. apply negb_true_iff, Z.eqb_neq in Nl.
+  pose proof (rd_range reg (dst i) Hr) as Rd. pose proof (rd_range reg (src i) Hr) as Rs.
+  destruct clV_facts as (V & _ & _ & M1 & _).
+  assert (P0 : 0 <= cl_p0 E < 2 ^ 64).
+  { destruct HE as [_ (P1 & P2 & P3) _ _ _]. unfold cl_p0. change (2 ^ 63) with 9223372036854775808 in P3. change (2 ^ 64) with 18446744073709551616.
+    destruct (e_mem_len E =? 0); lia. }
+  pose proof (proj1 (Forall_forall _ _) (cl_mem_arms i _ _ (cl_p0 E) Rd Rs P0 Hoff Hi) _ Hin) as (K & B & _).
+  pose proof (proj1 (Forall_forall _ _) (cl_mem_shape i _ _ (cl_p0 E) Rd Rs Hoff) _ Hin) as (Sb & So).
+  pose proof (size_of_range (opc i)) as Hn. rewrite <- B in Hn.
+  pose proof (bounds_check_iff (clV E) _ _ _ V Sb So Hn) as IFF.
+  assert (A1 : inl (opc i) cl_alu_ops = false) by (apply (inl_false _ _ _ alu_ops_class);
+    destruct (Z.eqb_spec (opc i mod 8) 7); [lia|]; destruct (Z.eqb_spec (opc i mod 8) 4); [lia|]; reflexivity).
+  assert (A2 : inl (opc i) cl_jmp_ops = false) by (apply (inl_false _ _ _ jmp_ops_class);
+    destruct (Z.eqb_spec (opc i mod 8) 5); [lia|]; destruct (Z.eqb_spec (opc i mod 8) 6); [lia|]; reflexivity).
+  unfold cl_exec. cbv zeta. rewrite A1, A2, (inl_In _ _ Hin).
+  destruct (Z.eqb_spec (opc i) op_le) as [E1|_]; [rewrite E1 in C3; vm_compute in C3; now destruct C3|].
+  destruct (Z.eqb_spec (opc i) op_be) as [E1|_]; [rewrite E1 in C3; vm_compute in C3; now destruct C3|]. cbn [orb].
+  destruct (Z.eqb_spec (opc i) op_lddw) as [E1|_]; [contradiction|].
+  destruct (Z.eqb_spec (opc i) op_ja) as [E1|_]; [rewrite E1 in C3; vm_compute in C3; now destruct C3|].
+  rewrite M1.
+  destruct (gen_bounds_check (clV E) _ _ _) eqn:G.
+  - left. destruct (a_kind _ =? 0); [|destruct (a_kind _ =? 1)]; eexists; (split; [reflexivity|now apply IFF]).
+  - right. split; [reflexivity|]. intros Q. apply IFF in Q. congruence.
+Qed.
+
 (** every opcode Cranelift translates *)
 Definition cl_ops : list Z := cl_alu_ops ++ cl_jmp_ops ++ cl_mem_ops ++ [op_le; op_be; op_lddw; op_ja; op_call; op_exit].
 
